@@ -3,7 +3,7 @@
 manifest is always valid and current)."""
 import json, subprocess
 
-HOOK_COMMITS = ["00a6da5", "138be5b"]
+HOOK_COMMITS = ["00a6da5", "138be5b", "b138b83"]
 
 CHECKS = {
  "C01": dict(engine="seqx", technique="explicit-state BFS over operation histories on the real store vs reference model (bounded exhaustive)",
@@ -57,6 +57,10 @@ CHECKS["C08"] = dict(engine="schedx", technique="stateless DFS over all schedule
    text="At every unlink in every explored execution: the file stores no live entry (model), it is the oldest chunk file, and the durable remainder (each remaining file cut to its synced length, decoded independently) already contains the purge that made it obsolete, also when syncs fail; crash images around the unlinks satisfy the C03 oracle; after an effective purge + flush + idle every obsolete closed chunk is gone.",
    note=SCHED_NOTE, ref="5 C08")
 
+CHECKS["C14"] = dict(engine="schedx", technique="stateless DFS over all schedules of two store instances on one directory (old instance's worker vs new instance's open, operations and worker)",
+   text="For every first-instance history of the shape prefix; F; W*; [A...]; drop (rotation every 1-2 writes, so chunk tails and removals may be pending at drop), followed by open; purge; flush; wait; idle; read; append; flush; wait; drop on a second instance, every interleaving of the first worker's remaining steps with the second instance is explored: after drop returned no traced call of the old worker may change the directory; open must succeed and show a prefix of the writes that includes everything acknowledged; the new instance's flushes must be acknowledged Ok and its worker must stay alive.",
+   note=SCHED_NOTE + "; second process replaced by a second instance in the same process (flock conflicts between file descriptions, so lock behaviour is the same)", ref="5 C14")
+
 NOT_YET = {
  "C03": "engine schedx --crash not built yet (planned, DESIGN 4.3)",
  "C04": "engine schedx with fault injection not built yet (planned, DESIGN 4.2)",
@@ -102,7 +106,7 @@ def main():
         "engines": [
             {"name": "seqx", "path": "harness/src/seqx.rs", "serves_properties": ["C01","C02","C06","C11","C15","C16"],
              "kind_free_text": "explicit-state breadth-first search over operation histories; every transition runs the real store; reference-model oracle"},
-            {"name": "schedx", "path": "harness/src/schedx.rs (scheduler: sched.rs, interposition: interpose.rs, crash model: shadow.rs)", "serves_properties": ["C03","C04","C05","C07","C08"],
+            {"name": "schedx", "path": "harness/src/schedx.rs (scheduler: sched.rs, interposition: interpose.rs, crash model: shadow.rs)", "serves_properties": ["C03","C04","C05","C07","C08","C14"],
              "kind_free_text": "stateless model checking of the real two-thread implementation: exhaustive schedule exploration with sleep sets, fault injection, crash-image enumeration"},
             {"name": "imagex", "path": "harness/src/imagex.rs", "serves_properties": ["C09","C10"],
              "kind_free_text": "exhaustive enumeration of damaged on-disk images recovered by the real RaftLog::open"},
